@@ -38,7 +38,7 @@ func init() {
 
 var c09Files = []string{
 	"session.go", "session_iq.go", "mux/mux.go",
-	"ibb/ibb.go", "ibb/conn.go",
+	"ibb/ibb.go", "ibb/conn.go", "ibb/listen.go",
 	"history/history.go", "history/iter.go", "history/query.go", "history/fin.go",
 	"receipts/receipts.go",
 	"muc/muc.go", "muc/room.go",
@@ -239,5 +239,89 @@ func (g *gen) c09Sites() {
 			hexOf([]byte(s.file)), hexOf([]byte(s.fn)), kinds[s.kind], hexOf([]byte(s.expr)), sep,
 			s.file, s.fn, strings.ReplaceAll(strings.ReplaceAll(s.expr, "*)", "* )"), "(*", "( *"))
 	}
+	g.p("].\n\n")
+	g.c09Tables()
+}
+
+// c09Tables lists, for the listener table of the ibb handler (the map field
+// named l, keyed by an address of the session), the key expression of every
+// insertion and deletion, normalised: an identifier is replaced by the
+// expression it was defined with in the same function, and what precedes the
+// call of LocalAddr (the path to the session) is dropped. The model proves that
+// all of them are the same expression: an entry removed under another key than
+// the one it was inserted with stays in the table with its channel closed.
+func (g *gen) c09Tables() {
+	type fact struct{ file, fn, op, key string }
+	var facts []fact
+	for _, rel := range []string{"ibb/ibb.go", "ibb/listen.go"} {
+		f := g.parse(rel)
+		if f == nil {
+			continue
+		}
+		for _, d := range f.Decls {
+			fd, is := d.(*ast.FuncDecl)
+			if !is || fd.Body == nil {
+				continue
+			}
+			defs := map[string]ast.Expr{}
+			ast.Inspect(fd.Body, func(n ast.Node) bool {
+				if as, is := n.(*ast.AssignStmt); is && as.Tok == token.DEFINE && len(as.Lhs) == 1 && len(as.Rhs) == 1 {
+					if id, is := as.Lhs[0].(*ast.Ident); is {
+						defs[id.Name] = as.Rhs[0]
+					}
+				}
+				return true
+			})
+			isTable := func(e ast.Expr) bool {
+				sel, is := e.(*ast.SelectorExpr)
+				return is && sel.Sel.Name == "l"
+			}
+			norm := func(e ast.Expr) string {
+				if id, is := e.(*ast.Ident); is {
+					if d, ok := defs[id.Name]; ok {
+						e = d
+					}
+				}
+				k := c09Expr(g.fset, e)
+				if i := strings.Index(k, "LocalAddr"); i >= 0 {
+					k = k[i:]
+				}
+				return k
+			}
+			ast.Inspect(fd.Body, func(n ast.Node) bool {
+				switch x := n.(type) {
+				case *ast.AssignStmt:
+					if x.Tok == token.ASSIGN && len(x.Lhs) == 1 {
+						if ix, is := x.Lhs[0].(*ast.IndexExpr); is && isTable(ix.X) {
+							facts = append(facts, fact{rel, c09FuncName(fd), "insert", norm(ix.Index)})
+						}
+					}
+				case *ast.CallExpr:
+					if id, is := x.Fun.(*ast.Ident); is && id.Name == "delete" && len(x.Args) == 2 && isTable(x.Args[0]) {
+						facts = append(facts, fact{rel, c09FuncName(fd), "delete", norm(x.Args[1])})
+					}
+				}
+				return true
+			})
+		}
+	}
+	ins, del := 0, 0
+	g.p("(* ---- key expressions of the ibb listener table (insert / delete) ---- *)\n")
+	g.p("Definition listener_table_keys : list (bool * bytes) := [ (* (is_delete, normalised key) *)\n")
+	for i, f := range facts {
+		sep := ";"
+		if i+1 == len(facts) {
+			sep = ""
+		}
+		if f.op == "insert" {
+			ins++
+		} else {
+			del++
+		}
+		g.p("  (%v, hex \"%s\")%s (* %s %s: %s %s *)\n", f.op == "delete", hexOf([]byte(f.key)), sep, f.file, f.fn, f.op, f.key)
+	}
 	g.p("].\n")
+	if ins == 0 || del == 0 {
+		g.errs = append(g.errs, "ibb: listener table: no insertion or no deletion found")
+	}
 }
